@@ -133,6 +133,7 @@ def finish(ctx, level, explanation, assumptions, trusted_base, checker_cmd, extr
         "known_findings_matched": [{"rule": f.rule, "key": f.key, "message": f.message} for f, _ in kf],
         "exhaustive": bool(exhaustive),
         "notes": ctx.notes[:50],
+        "undecided": [u[:300] for u in getattr(ctx, "broken", [])[:20]],
     }
     if extra_cov:
         cov.update(extra_cov)
@@ -150,16 +151,24 @@ def finish(ctx, level, explanation, assumptions, trusted_base, checker_cmd, extr
         json.dump(ev, fh, indent=1, default=str)
     for f, k in kf:
         print("KNOWN-FINDING: property=%s %s [%s]" % (f.prop, k.get("what", f.message), f.ident()))
-    if broken:
-        for n, m, mn in broken:
-            print("ANALYSIS-BROKEN property=%s floor %s: measured %d < minimum %d" % (ctx.prop, n, m, mn))
-        return 2
+    undecided = list(getattr(ctx, "broken", []))
     if viol:
+        # definite violations are reported even when other obligations could not be decided
         for f in viol:
             path = write_replay(f, ctx)
             print("VIOLATION property=%s replay=%s" % (f.prop, path))
             print("  rule %s: %s" % (f.ident(), f.message))
+        for u in undecided[:3]:
+            print("  (also undecided: %s)" % u[:300])
         return 1
+    if broken or undecided:
+        for n, m, mn in broken:
+            print("ANALYSIS-BROKEN property=%s floor %s: measured %d < minimum %d" % (ctx.prop, n, m, mn))
+        for u in undecided[:3]:
+            print("ANALYSIS-BROKEN property=%s %s" % (ctx.prop, u[:600]))
+        if len(undecided) > 3:
+            print("ANALYSIS-BROKEN property=%s (+%d more undecided)" % (ctx.prop, len(undecided) - 3))
+        return 2
     print("OK property=%s tier=%s obligations=%d discharged=%d known_findings=%d wall=%.1fs" % (
         ctx.prop, ctx.tier, ctx.obligations, ctx.discharged, len(kf), time.time() - ctx.t0))
     return 0
